@@ -551,10 +551,7 @@ func report(e *Engine, res *checkResult, tier string, seed int, verbose bool) in
 		trusted = append(trusted, "axiom "+n+" ("+by+")")
 	}
 	for k, c := range e.contracts {
-		if c.Trusted {
-			for _, f := range res.funcs {
-				_ = f
-			}
+		if c.Trusted && e.appliedContracts[k] {
 			trusted = append(trusted, "assumed contract (body not verified): "+k)
 		}
 	}
